@@ -10,7 +10,7 @@ Kinds == {"start>end", "negative", "beyond-sequence", "length-mismatch", "frames
           "undirected", "wrong-alphabet", "overlapping", "duplicate", "empty", "mixed-frame-phase", "multi-primary",
           "half-bounds", "strand-mismatch", "zero-length", "beyond-sequence-not-last", "gap-letter", "too-short", "too-long", "trailing-newline", "leading-blank",
           "zero-start", "zero-end", "before-bounds", "beyond-bounds", "parent-other-id", "parent-other-sequence", "parent-other-type",
-          "parent-missing"}
+          "parent-missing", "cds-end-beyond-exons", "cds-start-before-exons"}
 (* outcomes: value | documented rejection | anything else is an internal error *)
 InternalExc(o) == IsExc(o) /\ o[2] \notin DocumentedExc
 Pairwise(ss, es) == Len(ss) = Len(es) /\ Len(ss) > 0 /\ \A i \in DOMAIN ss : 0 <= ss[i] /\ ss[i] <= es[i]
@@ -71,6 +71,11 @@ Corrupt(cls, a, kind) ==
     [] cls = "TX" /\ kind = "start>end" -> <<Bump(a[1], 1, a[2][1] + 1), a[2], a[3], a[4], a[5], a[6], a[7]>>
     [] cls = "TX" /\ kind = "length-mismatch" -> <<a[1], Append(a[2], a[2][Len(a[2])] + 2), a[3], a[4], a[5], a[6], a[7]>>
     [] cls = "TX" /\ kind = "cds-outside-exons" /\ a[4] # <<>> /\ a[1][1] > 0 ->
+         <<a[1], a[2], a[3], Bump(a[4], 1, a[1][1] - 1), a[5], a[6], a[7]>>
+    \* the LAST block of the CDS runs past the last exon (the first block is fine), the FIRST starts before the first exon
+    [] cls = "TX" /\ kind = "cds-end-beyond-exons" /\ a[4] # <<>> ->
+         <<a[1], a[2], a[3], a[4], Bump(a[5], Len(a[5]), a[2][Len(a[2])] + 1), a[6], IF a[7] < 0 THEN a[7] ELSE a[7] + 1>>
+    [] cls = "TX" /\ kind = "cds-start-before-exons" /\ a[4] # <<>> /\ a[1][1] > 0 ->
          <<a[1], a[2], a[3], Bump(a[4], 1, a[1][1] - 1), a[5], a[6], a[7]>>
     [] cls = "TX" /\ kind = "frames-mismatch" /\ a[4] # <<>> -> <<a[1], a[2], a[3], a[4], a[5], Append(a[6], 0), a[7]>>
     [] cls = "TX" /\ kind = "half-bounds" /\ a[4] # <<>> -> <<a[1], a[2], a[3], a[4], <<>>, a[6], a[7]>>
